@@ -1,4 +1,6 @@
-// Unit C17 - stack-pointer offsets hold on every execution, for every architecture.
+// Unit C17, VARIANT for a tree WITHOUT candidate fix 3 (units/C17/proposed_fix_3.diff): identical to units/C17/unit.rs except that
+// the helper `is_translation` (introduced by fix 3) is not extracted.  Purpose: show the named obligations of the three defects
+// FAILING on the current code (`mkdir -p $OUT/build/C17 && VERIF_OUT=$OUT ./check C17/nofix3`), see units/C17/nofix3/meta.json.
 // Generated file = this template + the real text of the items named in the `//@` holes.
 #![feature(allocator_api)]
 #![allow(unused_imports, unused_variables, dead_code, unused_mut, non_snake_case, unused_parens, unused_braces, deprecated)]
@@ -135,7 +137,6 @@ use std::collections::HashMap;
 use std::fmt::Debug;
 broadcast use {location_hash::axiom_program_location_obeys_key_model};
 //@ include units/C17/spo.rs
-//@ include units/C17/spo_istransl.rs
 //@ include units/C17/spo_fp.rs
 //@ include units/C17/spo_lai.rs
 proof fn vf_canary_stack_pointer_offsets() ensures false {}
